@@ -472,7 +472,7 @@ CtxPre(name) ==
     [] name = "while"    -> "(() => { while ("
     [] name = "catch"    -> "(() => { try { throw 0; } catch { return "
     [] name = "objval"   -> "({ x: "
-    [] name = "await"    -> "(await "
+    [] name = "await"    -> "(await ("
     [] name = "ret"      -> ""
     [] name \in {"privU", "privT"} ->
          "(new (class { #f" \o (IF name = "privT" THEN " = 3" ELSE "") \o
@@ -506,7 +506,7 @@ CtxPost(name) ==
     [] name = "while"    -> ") return 1; return 0; })()"
     [] name = "catch"    -> "; } })()"
     [] name = "objval"   -> " }).x"
-    [] name = "await"    -> ")"
+    [] name = "await"    -> "))"
     [] name = "ret"      -> ""
     [] name \in {"privU", "privT"} -> "), this.#f]; } })).run()"
     [] name = "sprivT"   -> "), this.#f]; } }).run()"
@@ -875,6 +875,8 @@ EvRest(x, c) ==
          LET g == Ev(x.a[2], WithSt(c, e.st)) t1 == e.t \o g.t IN
          IF g.ab # "" THEN Throw(t1, g.ab, g.st)
          ELSE IF Nullish(g.v) THEN Unpred(t1, g.st)
+         \* assigning to a property of a primitive: TypeError in strict code, ignored in sloppy code
+         ELSE IF ~IsObject(g.v) /\ c.strict THEN Throw(t1 \o Evs(<<"a">>), "TypeError", g.st)
          ELSE Ok(t1 \o Evs(<<"a">>) \o SetEv(g.v, "x", Val("a")) \o RestEvs({"a"}), Lit(RestOf({"a"})), g.st)
     [] x.s = "r_key" ->
          LET d == Ev(Sink(x.a[2]), WithSt(c, e.st)) t1 == e.t \o d.t IN
@@ -1011,7 +1013,7 @@ EvUsing(x, c) ==
 AsyncSrc(x) ==
   LET A(i) == Src(x.a[i]) IN
   CASE x.s = "a_order" ->
-         "(await (async () => { const f = async (x) => { k(1); const v = await " \o A(1) \o "; k(2); return [v, x, " \o A(2) \o "]; }; const pr = f(4); k(3); return await pr; })())"
+         "(await (async () => { const f = async (x) => { k(1); const v = await " \o SrcP(x.a[1]) \o "; k(2); return [v, x, " \o A(2) \o "]; }; const pr = f(4); k(3); return await pr; })())"
     [] x.s \in {"a_forawait_ai", "a_forawait_si"} ->
          "(await (async () => { for await (const x of " \o (IF x.s = "a_forawait_ai" THEN "ai" ELSE "si") \o "(2)) { k(x); if (" \o A(1) \o ") break; } return 0; })())"
     [] x.s = "a_gen" ->
